@@ -99,6 +99,10 @@ Print Assumptions C19_model_passes_oracle_set_flag.
 Theorem C19_model_passes_oracle_content_format : forall r, verdict190 (8 :: r) (run190 (8 :: r)) = true.
 Proof. exact model_passes_oracle190_cf. Qed.
 Print Assumptions C19_model_passes_oracle_content_format.
+(* the Observe and Content-Format getters over ANY raw state (kind 12): values of any length, padded, repeated *)
+Theorem C19_model_passes_oracle_getters : forall r, verdict190 (12 :: r) (run190 (12 :: r)) = true.
+Proof. exact model_passes_oracle190_getters. Qed.
+Print Assumptions C19_model_passes_oracle_getters.
 Theorem C19_model_passes_oracle_set_path : forall r, verdict190 (4 :: r) (run190 (4 :: r)) = true.
 Proof. exact model_passes_oracle190_set_path. Qed.
 Print Assumptions C19_model_passes_oracle_set_path.
